@@ -102,6 +102,49 @@ func setupC18(x *Ctx) {
 		x.Probe("no-stable-point-within-2-minutes")
 		return true
 	}
+	if x.Feat(FeatMoreInputs) && x.Chance("bystander-ops", 0.5) {
+		// A's user is busy with another device meanwhile: operations on a foreign SKI shortly
+		// after hub A has produced a pairing state for B
+		foreign := strings.Repeat("c0", 20)
+		nOps := 1 + x.Choose("bystander-n", 4)
+		x.SigAdd("bystander")
+		x.Go("X:bystander", func() {
+			simrt.Recv("a", a.ready)
+			seen := 0
+			for k := 0; k < nOps; k++ {
+				found := false
+				for i := 0; i < 6000 && !found; i++ {
+					n := 0
+					for _, e := range x.Events() {
+						if e.Kind == "pairing-produced" && e.A == "A" && e.B == b.ski {
+							n++
+						}
+					}
+					if n > seen {
+						seen, found = n, true
+						break
+					}
+					simrt.Sleep(10 * time.Millisecond)
+				}
+				if !found {
+					return
+				}
+				simrt.Sleep([]time.Duration{0, 50 * time.Millisecond, 200 * time.Millisecond, 450 * time.Millisecond}[x.Choose("bystander-gap", 4)])
+				op := x.Choose("bystander-op", 3)
+				x.Probe("operation-on-another-ski-near-state-change")
+				a.on("op", func() {
+					switch op {
+					case 0:
+						a.hub.RegisterRemoteSKI(foreign)
+					case 1:
+						a.hub.UnregisterRemoteSKI(foreign)
+					default:
+						a.hub.CancelPairingWithSKI(foreign)
+					}
+				})
+			}
+		})
+	}
 	x.Go("X:script", func() {
 		simrt.Recv("a", a.ready)
 		simrt.Recv("b", b.ready)
@@ -251,6 +294,10 @@ func checkPairingNotifications(x *Ctx, r *hubRig, phase string) bool {
 			}
 			k := key{n.name, m.ski}
 			if count[k] == 0 {
+				if cur := current[k]; cur != 0 && x.Feat(FeatMoreInputs) {
+					x.Violate("last-notification-stale", "never-notified", fmt.Sprintf("%s phase: hub %s never delivered a ServicePairingDetailUpdate for %s, PairingDetailForSki says %d", phase, n.name, m.name, cur))
+					bad = true
+				}
 				continue
 			}
 			cur := current[k]
